@@ -95,6 +95,18 @@ def shape_replay(B):
     return {"program": prog, "ast": B.list([outer, S.ast_label(B, "e")]), "expected": B.list([B.list(["e"]), B.list(["a", "d", "x"]), B.list(["b", "x"]), B.list(["c", "x"])])}
 
 
+def shape_forward_shadowing_over_constant(B):
+    # target := 5   .db 0   { ptr = target  .db 1  target: }  -- the enclosing `target` is a CONSTANT known while the statements are expanded; the
+    # block's own label still wins once the labels are resolved
+    res = S.resolver(B)
+    inner = S.ast_compound(B, [S.ast_symbol(B, "ptr", S.expr_ident(B, "target")), S.ast_data(B, "db", [S.expr_num(B, 1)]), S.ast_label(B, "target")])
+    ast = [S.ast_assign(B, "target", S.expr_num(B, 5)), S.ast_data(B, "db", [S.expr_num(B, 0)]), inner]
+    bus, m = S.live_mapping(B, "low_rom_bus", "1")
+    B.I.hmut(B.st, res).fields["reloc_address"] = B.inst("a816.cpu.mapping.Address", bus=bus, logical_value=0x008000, mapping=m)
+    prog = B.inst("a816.program.Program", resolver=res, logger=None, dump_symbols=False, parser=None, label_pass_addresses=B.list([]))
+    return {"program": prog, "ast": B.list(ast), "outer_addr": 5, "inner_addr": 0x008002}
+
+
 def shape_forward_shadowing(unresolved_elsewhere):
     def sh(B):
         # target: .db 0 { ptr = target .db 1 target: }  [ other = later  later: ]
@@ -111,7 +123,8 @@ def shape_forward_shadowing(unresolved_elsewhere):
 
 
 def cases(E):
-    cs = []
+    cs = [Case("vf.contracts.c_scopes.forward_shadowing_contract", "target := 5 .db 0 { ptr = target .db 1 target: }", shape_forward_shadowing_over_constant,
+               target=[G + "_code_gen", G + "generate_symbol", "a816.program.Program.resolve_labels", "a816.parse.nodes.SymbolNode.pc_after"])]
     for other in (False, True):
         cs.append(Case("vf.contracts.c_scopes.forward_shadowing_contract", f"target: .db 0 {{ ptr = target .db 1 target: }}{' other = later later:' if other else ''}", shape_forward_shadowing(other),
                        target=[G + "_code_gen", "a816.program.Program.resolve_labels", "a816.parse.nodes.SymbolNode.pc_after"]))
